@@ -167,3 +167,12 @@ Print Assumptions lut_lrelu_correct.
 Print Assumptions lut_hardswish_correct.
 Print Assumptions optimise_quantize_fold_correct.
 Print Assumptions srdhm32_is_round_half_up.
+
+(* REFUTED for NumPy scalars: with an np.int16 operand (as convert_hardswish_to_lut passes) shift_left16 wraps
+   instead of saturating; the Python-int evaluation (GenFpMath) and the reference agree on 32767 *)
+Theorem shift_left16_np_int16_refuted :
+  exists a off, in_int 16 a = true /\ 0 <= off <= 30 /\
+    np_shift_left16_int16 a off = Some (-256) /\ SaturatingLeftShift16 a off = 32767 /\
+    GenFpMath.shift_left16 a off = Some 32767.
+Proof. exact shift_left16_np_int16_refuted_lemma. Qed.
+Print Assumptions shift_left16_np_int16_refuted.
